@@ -53,6 +53,10 @@ type walkCase struct {
 	NilControl bool           `json:"nilControl,omitempty"`
 	NativeMode ref.NativeMode `json:"nativeMode,omitempty"`
 	Props      bool           `json:"props,omitempty"`
+	// CancelAt: the context given to Walk ends while the walk is under way - when Walk
+	// evaluates its breakpoints for the CancelAt-th time (0: never; -1: before the call).
+	CancelAt int `json:"cancelAt,omitempty"`
+	cancel   func()
 }
 
 func (wc *walkCase) control() *core.Control {
@@ -62,6 +66,20 @@ func (wc *walkCase) control() *core.Control {
 	c := &core.Control{Limit: wc.Limit}
 	if wc.Breakpoint != "" {
 		c.Breakpoints = map[string]core.Breakpoint{"bp": bpFunc(wc.Breakpoint)}
+	}
+	if wc.CancelAt > 0 && wc.cancel != nil {
+		// never holds; ends the caller's context on its n-th evaluation
+		if c.Breakpoints == nil {
+			c.Breakpoints = map[string]core.Breakpoint{}
+		}
+		calls, cancel, at := 0, wc.cancel, wc.CancelAt
+		c.Breakpoints["a-never"] = func(context.Context, *core.State) bool {
+			calls++
+			if calls == at {
+				cancel()
+			}
+			return false
+		}
 	}
 	return c
 }
@@ -96,8 +114,24 @@ func checkWalkP(ctx context.Context, rec *fw.Rec, prefix string, wc *walkCase, s
 	}
 	msgs := fw.Deep(wc.Messages).([]interface{})
 	var err error
+	if wc.CancelAt != 0 {
+		var cancel context.CancelFunc
+		ctx, cancel = context.WithCancel(ctx)
+		defer cancel()
+		wc.cancel = cancel
+		if wc.CancelAt < 0 {
+			cancel()
+		}
+	}
 	if rec.Guard(prefix, wc, func() { walked, err = spec.Walk(ctx, given, msgs, wc.control(), props) }) {
 		return false, nil
+	}
+	if wc.CancelAt != 0 {
+		// the probes below are calls of their own
+		ctx = context.Background()
+		if walked != nil && walked.StoppedBecause == core.Done {
+			rec.Bucket("walks_done_under_a_context_that_ended_meanwhile")
+		}
 	}
 	rec.Eval(1)
 	bad := func(cls, why string) (bool, *core.Walked) {
@@ -371,8 +405,8 @@ func allSplits(n int) [][]int {
 }
 
 func Run(cfg fw.Config, rec *fw.Rec) {
-	rec.Rule = "random specs (1-5 nodes incl. cyclic / non-terminating, failing and bad-return actions, guards, @var and missing targets, all error settings, nodes that have an action and message branching; native and ECMAScript) x start states x sequences of 0-8 messages with unique ids (objects and the scalars false, 0, \"\") x limits {0,1,2,3,5,30,60,100,-1} x breakpoints; plus three-message batches in which one message carries a value that is not JSON (NaN, infinities, 12000-deep nesting, Go ints, functions, channels, structs, byte slices, maps with non-string keys) at every position under limits 1, 2, 3, 100: consumed once and in order, by identity; each Walked is checked as a history; every split of sequences of <= 6 messages is compared with the single Walk; non-trivial = walk with >= 2 strides; distinct by canonical (spec,state,messages,limit,breakpoint)"
-	rec.Required = []string{"stop_done", "stop_limited", "stop_breakpoint", "walks_consuming_several", "done_with_dropped_messages", "splits_compared", "ecma_walks", "scalar_messages", "specs_with_action_and_message_branching_node", "batches_with_a_message_that_is_not_json"}
+	rec.Rule = "random specs (1-5 nodes incl. cyclic / non-terminating, failing and bad-return actions, guards, @var and missing targets, all error settings, nodes that have an action and message branching; native and ECMAScript) x start states x sequences of 0-8 messages with unique ids (objects and the scalars false, 0, \"\") x limits {0,1,2,3,5,30,60,100,-1} x breakpoints; plus three-message batches in which one message carries a value that is not JSON (NaN, infinities, 12000-deep nesting, Go ints, functions, channels, structs, byte slices, maps with non-string keys) at every position under limits 1, 2, 3, 100: consumed once and in order, by identity; each Walked is checked as a history; a quarter of the native walks are repeated under a context that ends before the call or when Walk evaluates its breakpoints for the k-th time (k up to the number of strides + 1) and judged by the same rules; every split of sequences of <= 6 messages is compared with the single Walk; non-trivial = walk with >= 2 strides; distinct by canonical (spec,state,messages,limit,breakpoint)"
+	rec.Required = []string{"stop_done", "stop_limited", "stop_breakpoint", "walks_consuming_several", "done_with_dropped_messages", "splits_compared", "ecma_walks", "scalar_messages", "specs_with_action_and_message_branching_node", "batches_with_a_message_that_is_not_json", "walks_under_a_context_that_ends_meanwhile"}
 	rec.Assume = []string{"actions and guards are deterministic; guarded branches have at most one candidate", "stride-level agreement relies on ref.Step (see C04)"}
 	oddMessages(rec)
 	n := cfg.Pick(30000, 600000)
@@ -425,6 +459,20 @@ func Run(cfg fw.Config, rec *fw.Rec) {
 		}
 		if !native {
 			rec.Bucket("ecma_walks")
+		}
+		// the caller's context ends while the walk is under way (native actions do not look
+		// at it): whatever Walk then does, what it reports must still be true - completion
+		// only of a quiescent machine, otherwise the remainder
+		if native && i%4 == 1 && len(walked.Strides) > 0 {
+			wc3 := *wc
+			wc3.CancelAt = 1 + r.Intn(len(walked.Strides)+1)
+			if r.Intn(6) == 0 {
+				wc3.CancelAt = -1
+			}
+			if ok, _ := checkWalkP(context.Background(), rec, "C05:context-ends", &wc3, spec, markers); !ok {
+				return
+			}
+			rec.Bucket("walks_under_a_context_that_ends_meanwhile")
 		}
 		for _, nd := range a.Nodes {
 			if nd.Action != nil && nd.Branching != nil && nd.Branching.Type == "message" {
